@@ -48,10 +48,15 @@ try:
             res["validated"]["demo_with_change_output"] = out1[-800:]
     else:
         subprocess.check_call(["git", "-C", repo, "apply", os.path.join(d, "patch.diff")])
+    # the checks run from a private copy of /verif (own .build/.work/evidence/replays) so that they cannot collide with checks
+    # run against /repo at the same time
+    vcopy = os.path.join(tmp, "verif")
+    subprocess.check_call(["rsync", "-a", "--exclude", ".git", "--exclude", ".build", "--exclude", ".work", "--exclude", "replays",
+                           "--exclude", "seeded", "--exclude", "evidence", "/verif/", vcopy + "/"])
     for c in a.checks.split(","):
         e = dict(env, VERIF_REPO=repo, VERIF_SEED=a.seed)
         t0 = time.time()
-        p = subprocess.run([sys.executable, "/verif/check.py", c, a.tier], env=e, stdout=subprocess.PIPE, stderr=subprocess.PIPE, text=True)
+        p = subprocess.run([sys.executable, os.path.join(vcopy, "check.py"), c, a.tier], env=e, stdout=subprocess.PIPE, stderr=subprocess.PIPE, text=True)
         v = [l for l in p.stdout.splitlines() if l.startswith("VIOLATION")]
         msg = ""
         if v:
